@@ -79,6 +79,13 @@ JUNK = [b"", b"\x00", b"\xff\xfe", b"A" * 300, b"%", b"%zz", b"\r", b"\n", b"\r\
         b"-1", b"0", b"18446744073709551615", b"18446744073709551616", b"9" * 40, b"1e9", b"0x10", b"a", b"NaN", b"/", b"//", b"..", b"?", b"#", b"=", b"&", b";", b"\"", b"'", b"\xe2\x80\xa8"]
 
 
+# long values with a multi-byte character straddling a typical truncation limit (16 .. 4096 bytes)
+for _L in (16, 32, 64, 80, 100, 128, 200, 255, 256, 500, 512, 1000, 1024, 2048, 4096):
+    for _d in (1, 2):
+        JUNK.append(b"a" * (_L - _d) + "\u00e9\u20ac\U0001F600".encode("utf-8") * 6)
+JUNK += [b"x" * 255 + "\u00e9".encode() * 50, ("\u00e9" * 400).encode(), ("\U0001F600" * 300).encode(), b"a" * 8000]
+
+
 def mutations(req, rng, n):
     """n single-position mutations of a valid request; yields (kind, element, raw bytes)."""
     out = []
@@ -147,6 +154,24 @@ def mutations(req, rng, n):
         else:
             raw = r.bytes()
         out.append((kind, el, raw))
+    return out
+
+
+EXTREMES = [0, 1, 2 ** 15, 2 ** 16 - 1, 2 ** 31 - 1, 2 ** 31, 2 ** 32 - 1, 2 ** 32, 2 ** 63 - 1, 2 ** 63, 2 ** 64 - 5000, 2 ** 64 - 300, 2 ** 64 - 2, 2 ** 64 - 1, 2 ** 64, 2 ** 64 + 1, 2 ** 127, 2 ** 128, 10 ** 30]
+
+
+def numeric_extremes(req):
+    """deterministic block: every numeric request header set to every extreme value (no random draw decides whether
+    'Content-Length: 2^64-1' is tried)"""
+    out = []
+    texts = [str(v) for v in EXTREMES] + ["-1", "-0", "+1", "01", "1.0", "1e3", "0x10", "", " 7", "7 ", "a", "\u0661"]
+    for name, fmt in (("Content-Length", "%s"), ("Range", "bytes=%s-"), ("Range", "bytes=0-%s"), ("Range", "bytes=-%s"), ("Range", "bytes=%s-%s"), ("Host", "localhost:%s"),
+                      ("Content-Range", "bytes 0-%s/%s"), ("Access-Control-Max-Age", "%s"), ("Max-Forwards", "%s"), ("Keep-Alive", "timeout=%s")):
+        for tx in texts:
+            r = req.copy()
+            val = fmt % ((tx,) * fmt.count("%s"))
+            r.headers = [(k, v) for k, v in r.headers if (k if isinstance(k, str) else "").lower() != name.lower()] + [(name, val)]
+            out.append(("numeric-extreme:" + name, "numeric", r.bytes()))
     return out
 
 
